@@ -604,6 +604,70 @@ def translate_drop(repo):
             "Definition g_rc_drop : list dstmt :=\n  [ %s ].\n" % (path, ";\n    ".join(sts)))
 
 
+# ---------------------------------------------------------------------------------------------------
+# drop.rs: the ORDER OF EFFECTS of the teardown functions, as a tree of markers (loops and tests keep
+# their nesting). Nothing here is interpreted by the translator: the expected trees, and what each marker
+# means in terms of the model's frames, are in gen/EffectsProofs.v.
+EFFECTS = [(r"\.make_uninit\(\)", "MakeUninit"), (r"mem::replace\(&mut \(\*rcbox\)\.value", "MoveValue"),
+           (r"drop\(inner\.assume_init\(\)\)", "DropValue"), (r"mem::replace\(&mut \(\*rcbox\)\.links", "MoveLinks"),
+           (r"drop\(links\.assume_init\(\)\)", "DropLinks"), (r"\.dec_weak\(\)", "DecWeak"),
+           (r"\.dec_strong\(\)", "DecStrong"), (r"\.deallocate\(", "Dealloc"), (r"inners\.push\(", "PushInner"),
+           (r"drop\(inners\)", "DropInners"), (r"\.borrow_mut\(\)", "BorrowMut"), (r"\.borrow\(\)", "Borrow"),
+           (r"\.remove\(", "Remove"), (r"\.extract_if\(", "ExtractIf"), (r"\.is_uninit\(\)", "TestUninit"),
+           (r"\.is_dead\(\)", "TestDead"), (r"\.weak\(\) == 0", "TestWeakZero"), (r"\bcontinue;", "Continue"),
+           (r"ptr::eq\(", "TestSelf"), (r"\.insert\(", "Insert"), (r"\.clear\(\)", "Clear")]
+EFF_RE = re.compile("|".join("(?P<e%d>%s)" % (i, p) for i, (p, _) in enumerate(EFFECTS)))
+
+
+def _markers(txt):
+    return ["E %s" % EFFECTS[int(m.lastgroup[1:])][1] for m in EFF_RE.finditer(txt)]
+
+
+def effect_tree(txt):
+    """txt: normalized function body -> list of Gallina enode terms"""
+    out, i, chunk_start = [], 0, 0
+    while i < len(txt):
+        if txt[i] == "{":
+            # header = text since the last ';' '{' '}' boundary inside the current chunk
+            head_start = max(txt.rfind(";", chunk_start, i), txt.rfind("}", chunk_start, i), chunk_start - 1) + 1
+            out += _markers(txt[chunk_start:head_start])
+            header = txt[head_start:i].strip()
+            depth, j = 1, i + 1
+            while depth:
+                depth += txt[j] == "{"
+                depth -= txt[j] == "}"
+                j += 1
+            inner = effect_tree(txt[i + 1:j - 1])
+            hm = _markers(header)
+            if re.match(r"for\b", header):
+                out.append("Loop [%s] [%s]" % ("; ".join(hm), "; ".join(inner)))
+            elif re.match(r"(else )?if\b|match\b|else\b", header) or header.endswith("=>"):
+                if hm or inner:
+                    out.append("Branch [%s] [%s]" % ("; ".join(hm), "; ".join(inner)))
+            else:
+                out += hm + inner          # closures, plain blocks, struct literals: no control flow of their own
+            i = chunk_start = j
+        else:
+            i += 1
+    out += _markers(txt[chunk_start:])
+    return out
+
+
+def translate_effects(repo):
+    path = repo + "/src/drop.rs"
+    src = re.sub(r"//[^\n]*", "", open(path).read())
+    text = ("(* GENERATED by tools/rs2v.py from %s -- do not edit. *)\n"
+            "From Coq Require Import List. Import ListNotations.\nFrom Gen Require Import EffectsLang.\n\n" % path)
+    for name, hdr in (("drop_unreachable", r"unsafe fn drop_unreachable<T>\(this: &mut Rc<T>\) \{"),
+                      ("drop_unreachable_with_adoptions", r"unsafe fn drop_unreachable_with_adoptions<T>\(this: &mut Rc<T>\) \{"),
+                      ("drop_cycle", r"unsafe fn drop_cycle<T>\(cycle: HashMap<Link<T>, usize>\) \{"),
+                      ("release_links", r"pub\(crate\) unsafe fn release_links<T>\(this: &Rc<T>\) \{")):
+        body = _norm(_fn_body(src, hdr))
+        body = re.sub(r"(?:debug|trace)!\((?:[^()]|\((?:[^()]|\([^()]*\))*\))*\);", "", body)
+        text += "Definition g_%s : list enode :=\n  [ %s ].\n\n" % (name, ";\n    ".join(effect_tree(body)))
+    return text
+
+
 if __name__ == "__main__":
     # rs2v.py <repo> <outdir> <counters|adopt>   (no outdir: print)
     import os
@@ -617,8 +681,10 @@ if __name__ == "__main__":
             text, name = translate_adopt(repo), "AdoptGen.v"
         elif part == "cycle":
             text, name = translate_cycle(repo), "CycleGen.v"
-        else:
+        elif part == "drop":
             text, name = translate_drop(repo), "DropGen.v"
+        else:
+            text, name = translate_effects(repo), "EffectsGen.v"
     except (Unsupported, ValueError, IndexError) as e:
         print("rs2v (%s): outside the translated subset: %s" % (part, e), file=sys.stderr)
         sys.exit(2)
